@@ -330,11 +330,12 @@ class DictDecoder:
 
         assert var.clazz is not None
 
-        subclasses = set(self.context.get_subclasses(var.clazz))
+        subclasses = list(self.context.get_subclasses(var.clazz))
         if subclasses:
-            # field annotation is an abstract/base type
-            subclasses.add(var.clazz)
-            return self.bind_best_dataclass(data, subclasses)
+            # field annotation is an abstract/base type, on equal scores
+            # the first candidate wins: the declared type goes first
+            candidates = collections.unique_sequence([var.clazz, *subclasses])
+            return self.bind_best_dataclass(data, candidates)
 
         return self.bind_dataclass(data, var.clazz)
 
